@@ -369,6 +369,29 @@ Proof.
   - reflexivity.
 Qed.
 
+(* the operation of the correspondence run is the history step, on both levels *)
+Lemma rl_from_step t now id ts oz sec msg st :
+  rl_fr_st (rl_from t now id ts oz sec msg st) = rl_ohstep t now (RlOFrom id ts oz sec msg) st.
+Proof.
+  unfold rl_from. cbn [rl_ohstep]. destruct (rl_get_ep (rl_eps st) id); [|reflexivity].
+  destruct (rl_recv id ts st) as [acc st1]. destruct acc; [|reflexivity]. destruct (rl_get_ep (rl_eps st1) id); reflexivity.
+Qed.
+
+Theorem rl_x_conc_from t now id ts oz sec m s :
+  let rx := rl_x_from t now id ts oz sec m s in
+  let rb := rl_from t now id ts oz sec (rl_x_expand m) (rl_x_conc s) in
+  rl_xfr_acc rx = rl_fr_acc rb /\ rl_xfr_logged rx = rl_fr_logged rb /\ rl_xfr_live rx = rl_fr_live rb /\ rl_x_conc (rl_xfr_st rx) = rl_fr_st rb.
+Proof.
+  cbv zeta. unfold rl_x_from, rl_from. change (rl_eps (rl_x_conc s)) with (rl_x_eps s).
+  destruct (rl_get_ep (rl_x_eps s) id); [|repeat split].
+  destruct (rl_x_conc_recv id ts s) as [R1 R2].
+  destruct (rl_x_recv id ts s) as [acc s1]. destruct (rl_recv id ts (rl_x_conc s)) as [acc' st1]. cbn [fst snd] in R1, R2. subst acc' st1.
+  destruct acc; [|repeat split]. change (rl_eps (rl_x_conc s1)) with (rl_x_eps s1).
+  destruct (rl_get_ep (rl_x_eps s1) id) as [e|]; [|repeat split].
+  destruct (rl_x_conc_relay_o (rl_origin_of t e oz) t now sec m s1) as (A & B & C). cbv zeta in A, B, C.
+  cbn [rl_xfr_acc rl_xfr_logged rl_xfr_live rl_xfr_st rl_fr_acc rl_fr_logged rl_fr_live rl_fr_st]. repeat split; assumption.
+Qed.
+
 (* ---------- the oracle accepts the model ---------- *)
 (* observation of one operation, per endpoint id: (some record of that id connected before?, is the operation its own
    acknowledgement?, position before, position after) *)
